@@ -698,3 +698,466 @@ theorem discPositions_append (a b : List (Item × Bool)) (ha : P2 (mk a) (it a) 
       | _ => simp at ha
 
 end C14
+
+namespace C14
+
+/-- The shape of `out` after one discretionary has been inserted. -/
+theorem disc_shape {eng : Engine} {font : Nat} {s : List Nat} {Mn : List Node}
+    (he : EngineOK eng) (hs : C05.originals Mn = s)
+    {w : W} {C : List Node} (b : Base font Mn w C) (sp : SplitOK s w)
+    {h : Nat} (h1 : w.ssp ≤ h)
+    {st0 r : Sync} {postC mainC : List Node} (d : SyncDone st0 r postC mainC)
+    (hmain : st0.main = w.main) (hcp : st0.cp = w.cp) (hpcp : st0.postCP = h)
+    (hpb : st0.postBreak = []) (hpu : st0.pushed = []) :
+    ∃ A B BP : List (Item × Bool),
+      insertDisc font w.out w.esp (preBreak eng font s w.ssp h) r
+        = A ++ (Item.disc (preBreak eng font s w.ssp h) (postC.map (toDElem font)) BP.length, true) :: BP ∧
+      w.out = A ++ B ∧ Unmarked B ∧ Unmarked BP ∧
+      P2 (mk A) (it A) = true ∧ allMarkedDisc (mk A) (it A) = true ∧
+      lettersL (it A) = s.take w.ssp ∧
+      lettersL (it BP) = (s.take r.cp).drop w.ssp ∧
+      preLetters (preBreak eng font s w.ssp h) = some ((s.drop w.ssp).take (h - w.ssp)) ∧
+      h ≤ r.cp ∧ r.cp ≤ s.length ∧ w.cp ≤ r.cp := by
+  unfold insertDisc
+  have hip : w.out.length - w.esp ≤ w.out.length := Nat.sub_le _ _
+  have hpushed : r.pushed = mainC := by rw [d.pushed, hpu]; simp
+  have hpostB : r.postBreak = postC := by rw [d.postBreak, hpb]; simp
+  rw [hpushed, hpostB]
+  generalize hA : w.out.take (w.out.length - w.esp) = A
+  generalize hB : w.out.drop (w.out.length - w.esp) = B
+  have hAB : A ++ B = w.out := by rw [← hA, ← hB]; exact List.take_append_drop _ _
+  have htake : (w.out ++ mainC.map (fun n => (toItem font n, false))).take (w.out.length - w.esp) = A := by
+    rw [List.take_append_of_le_length hip, hA]
+  have hdrop : (w.out ++ mainC.map (fun n => (toItem font n, false))).drop (w.out.length - w.esp)
+      = B ++ mainC.map (fun n => (toItem font n, false)) := by
+    rw [List.drop_append_of_le_length hip, hB]
+  rw [htake, hdrop]
+  generalize hP : mainC.map (fun n => (toItem font n, false)) = P
+  have hPun : Unmarked P := by
+    rw [← hP]; intro x hx
+    simp only [List.mem_map] at hx
+    obtain ⟨n, -, rfl⟩ := hx; rfl
+  have hitP : it P = mainC.map (toItem font) := by rw [← hP]; simp [it]
+  have hBun : Unmarked B := by rw [← hB]; exact sp.unm
+  have hBPun : Unmarked (B ++ P) := by
+    intro x hx; rcases List.mem_append.mp hx with h | h
+    · exact hBun x h
+    · exact hPun x h
+  have hAlen : A.length = w.out.length - w.esp := by rw [← hA]; simp
+  have hrc : (w.out ++ P).length - (w.out.length - w.esp) = (B ++ P).length := by
+    have : (A ++ B).length = w.out.length := by rw [hAB]
+    simp only [List.length_append] at this ⊢
+    omega
+  rw [hrc]
+  have hrest : (C ++ mainC) ++ r.main.rest.map (·.1) = Mn := by
+    rw [List.append_assoc, d.mainRest, hmain, b.rest]
+  have hcpr : r.cp = countChars (C ++ mainC) := by rw [d.cp, hcp, b.cp, countChars_append]
+  have hamdAB : allMarkedDisc (mk A) (it A) = true ∧ allMarkedDisc (mk B) (it B) = true := by
+    have := b.amd; rw [← hAB, amd_append, Bool.and_eq_true] at this; exact this
+  have horigAll : C05.originals (C ++ mainC) = s.take r.cp := by
+    have h1 : C05.originals (C ++ mainC) ++ C05.originals (r.main.rest.map (·.1)) = s := by
+      rw [← originals_append', hrest, hs]
+    have := prefix_eq_take h1
+    rw [hcpr, countChars_eq]; exact this
+  have hcple : r.cp ≤ s.length := by
+    have := congrArg List.length horigAll
+    rw [← countChars_eq, ← hcpr, List.length_take] at this
+    omega
+  have hletA : lettersL (it A) = s.take w.ssp := by rw [← hA]; exact sp.letA
+  have hletAB : lettersL (it A) ++ lettersL (it B) = C05.originals C := by
+    rw [← lettersL_append, ← b.letters, ← hAB]; simp [it]
+  have hhle : h ≤ r.cp := by rw [← d.same, d.postCP, hpcp]; omega
+  have hsspcp : w.ssp ≤ r.cp := by omega
+  have hcov : lettersL (it (B ++ P)) = (s.take r.cp).drop w.ssp := by
+    have e1 : lettersL (it A) ++ lettersL (it (B ++ P)) = s.take r.cp := by
+      have : it (B ++ P) = it B ++ it P := by simp [it]
+      rw [this, lettersL_append, ← List.append_assoc, hletAB, hitP, lettersL_toItem, ← originals_append', horigAll]
+    rw [take_split s w.ssp r.cp hsspcp, hletA] at e1
+    exact List.append_cancel_left e1
+  have hpre : preLetters (preBreak eng font s w.ssp h) = some ((s.drop w.ssp).take (h - w.ssp)) := by
+    unfold preBreak
+    apply preLetters_hyphen
+    have := lettersDL_toDElem font ((eng.run true none ((s.drop w.ssp).take (h - w.ssp) ++ [hyphenChar])).map (·.1))
+    rw [List.map_map] at this
+    rw [show (fun x : Node × Bool => toDElem font x.1) = (toDElem font ∘ fun x => x.1) from rfl, this, he.spell]
+  have hp2A : P2 (mk A) (it A) = true := by rw [← hA]; exact sp.p2A
+  have hwcp : w.cp ≤ r.cp := by rw [d.cp, hcp]; omega
+  exact ⟨A, B, B ++ P, rfl, hAB.symm, hBun, hBPun, hp2A, hamdAB.1, hletA, hcov, hpre, hhle, hcple, hwcp⟩
+
+/-! ## Which positions get a discretionary -/
+
+theorem skipPast_eq (cp : Nat) (l : List Nat) : skipPast cp l = l.dropWhile (fun p => decide (p < cp)) := by
+  induction l with
+  | nil => rfl
+  | cons h t ih =>
+    by_cases hh : h < cp <;> simp [skipPast, hh, ih]
+
+theorem mem_takeWhile' {α : Type} (p : α → Bool) : ∀ (l : List α) (x : α), x ∈ l.takeWhile p → x ∈ l ∧ p x = true := by
+  intro l
+  induction l with
+  | nil => intro x h; simp at h
+  | cons a l ih =>
+    intro x h
+    cases hp : p a with
+    | false => simp [hp] at h
+    | true =>
+      simp only [List.takeWhile_cons, hp, if_true, List.mem_cons] at h
+      rcases h with rfl | h
+      · exact ⟨by simp, hp⟩
+      · exact ⟨by simp [(ih x h).1], (ih x h).2⟩
+
+theorem dropWhile_head' {α : Type} (p : α → Bool) : ∀ (l : List α) (x : α) (t : List α),
+    l.dropWhile p = x :: t → p x = false := by
+  intro l
+  induction l with
+  | nil => intro x t h; simp at h
+  | cons a l ih =>
+    intro x t h
+    cases hp : p a with
+    | false =>
+      simp only [List.dropWhile_cons, hp, Bool.false_eq_true, if_false, List.cons.injEq] at h
+      rw [← h.1]; exact hp
+    | true =>
+      simp only [List.dropWhile_cons, hp, if_true] at h
+      exact ih x t h
+
+/-- Ghost state for the positions: `T` = the triples (break, span start, span end) of the
+discretionaries inserted so far, `done` = the positions `indices` has already yielded. -/
+structure PosInv (pos0 : List Nat) (out : List (Item × Bool)) (cp : Nat) (pos : List Nat)
+    (T : List (Nat × Nat × Nat)) (done : List Nat) : Prop where
+  disc : discPositions (mk out) (it out) 0 = T
+  split : done ++ pos = pos0
+  taken : T.map (·.1) = done.filter (fun p => !coveredBy T p)
+  ends : ∀ t ∈ T, t.2.2 ≤ cp
+  fromDone : ∀ t ∈ T, t.1 ∈ done
+
+theorem coveredBy_append (T T' : List (Nat × Nat × Nat)) (p : Nat) :
+    coveredBy (T ++ T') p = (coveredBy T p || coveredBy T' p) := by
+  simp [coveredBy]
+
+theorem disc_step_pos {eng : Engine} {font : Nat} {s : List Nat} {Mn : List Node}
+    (he : EngineOK eng) (hs : C05.originals Mn = s) {pos0 : List Nat} (hsorted : pos0.Pairwise (· < ·))
+    {w : W} {C : List Node} (b : Base font Mn w C) (sp : SplitOK s w)
+    {T : List (Nat × Nat × Nat)} {done : List Nat} (pi : PosInv pos0 w.out w.cp w.pos T done)
+    {h : Nat} {pos' : List Nat} (hpos : w.pos = h :: pos') (h1 : w.ssp ≤ h) (h2 : h ≤ s.length)
+    (hfree : ∀ t ∈ T, t.2.2 ≤ h)
+    {st0 r : Sync} {postC mainC : List Node} (d : SyncDone st0 r postC mainC)
+    (hmain : st0.main = w.main) (hcp : st0.cp = w.cp) (hpcp : st0.postCP = h)
+    (hpb : st0.postBreak = []) (hpu : st0.pushed = []) :
+    PosInv pos0 (insertDisc font w.out w.esp (preBreak eng font s w.ssp h) r) r.cp (skipPast r.cp pos')
+        (T ++ [(h, w.ssp, r.cp)]) (done ++ h :: pos'.takeWhile (fun p => decide (p < r.cp))) ∧
+      (∀ p ∈ skipPast r.cp pos', r.cp ≤ p) ∧
+      (∀ t ∈ T ++ [(h, w.ssp, r.cp)], ∀ p ∈ skipPast r.cp pos', t.2.2 ≤ p) := by
+  obtain ⟨A, B, BP, hout2, hAB, hBun, hBPun, hp2A, hamdA, hletA, hletBP, hpre, hhle, hcple, hwcp⟩ :=
+    disc_shape he hs b sp h1 d hmain hcp hpcp hpb hpu
+  -- sortedness facts
+  have hsplit := pi.split
+  rw [hpos] at hsplit
+  have hsorted' : (done ++ h :: pos').Pairwise (· < ·) := by rw [hsplit]; exact hsorted
+  have hdone_lt : ∀ x ∈ done, x < h := by
+    intro x hx
+    have := (List.pairwise_append.mp hsorted').2.2 x hx h (by simp)
+    exact this
+  have hpos'_gt : ∀ p ∈ pos', h < p := by
+    intro p hp
+    have := (List.pairwise_append.mp hsorted').2.1
+    exact (List.pairwise_cons.mp this).1 p hp
+  have hpos'_sorted : pos'.Pairwise (· < ·) :=
+    (List.pairwise_cons.mp (List.pairwise_append.mp hsorted').2.1).2
+  have htd : pos'.takeWhile (fun p => decide (p < r.cp)) ++ skipPast r.cp pos' = pos' := by
+    rw [skipPast_eq]; exact List.takeWhile_append_dropWhile
+  -- the elements that remain are ≥ r.cp
+  have hrem : ∀ p ∈ skipPast r.cp pos', r.cp ≤ p := by
+    rw [skipPast_eq]
+    intro p hp
+    cases hdw : pos'.dropWhile (fun p => decide (p < r.cp)) with
+    | nil => rw [hdw] at hp; cases hp
+    | cons x t =>
+      have hx : ¬ (x < r.cp) := by
+        have := dropWhile_head' (fun p => decide (p < r.cp)) pos' x t hdw
+        simpa using this
+      have hsub : (x :: t).Pairwise (· < ·) := by
+        rw [← hdw]
+        exact List.Pairwise.sublist (List.dropWhile_sublist _) hpos'_sorted
+      rw [hdw] at hp
+      rcases List.mem_cons.mp hp with rfl | hpt
+      · omega
+      · have := (List.pairwise_cons.mp hsub).1 p hpt; omega
+  have hdropped : ∀ p ∈ pos'.takeWhile (fun p => decide (p < r.cp)), h < p ∧ p < r.cp := by
+    intro p hp
+    have := mem_takeWhile' (fun p => decide (p < r.cp)) pos' p hp
+    exact ⟨hpos'_gt p this.1, by simpa using this.2⟩
+  -- the triples of the new list
+  have hTA : discPositions (mk A) (it A) 0 = T := by
+    have := pi.disc
+    rw [hAB, discPositions_append A B hp2A, discPositions_unmarked B hBun] at this
+    simpa using this
+  have haccA : (lettersL (erase (mk A) (it A))).length = w.ssp := by
+    rw [← lettersL_it A hamdA, hletA, List.length_take]
+    have := sp.sspLe; omega
+  have hT' : discPositions (mk (insertDisc font w.out w.esp (preBreak eng font s w.ssp h) r))
+      (it (insertDisc font w.out w.esp (preBreak eng font s w.ssp h) r)) 0 = T ++ [(h, w.ssp, r.cp)] := by
+    rw [hout2, discPositions_append A _ hp2A, hTA, haccA]
+    congr 1
+    simp only [List.map_cons, discPositions, if_true, Nat.zero_add, hpre, Option.getD_some]
+    rw [discPositions_unmarked BP hBPun]
+    have e1 : ((s.drop w.ssp).take (h - w.ssp)).length = h - w.ssp := by
+      rw [List.length_take, List.length_drop]; omega
+    have e2 : (lettersL ((it BP).take BP.length)).length = r.cp - w.ssp := by
+      have : (it BP).take BP.length = it BP := by apply List.take_of_length_le; simp [it]
+      rw [this, hletBP, List.length_drop, List.length_take]; omega
+    simp only [it] at e2
+    rw [e1, e2]
+    congr 2
+    · omega
+    · congr 1; omega
+  refine ⟨⟨hT', ?_, ?_, ?_, ?_⟩, hrem, ?_⟩
+  · -- split
+    rw [List.append_assoc, List.cons_append, htd]; exact hsplit
+  · -- taken
+    rw [List.map_append, pi.taken, List.filter_append]
+    have hnew : coveredBy [(h, w.ssp, r.cp)] = fun p => decide (h < p) && decide (p < r.cp) := by
+      funext p; simp [coveredBy]
+    congr 1
+    · apply List.filter_congr
+      intro x hx
+      rw [coveredBy_append, hnew]
+      have := hdone_lt x hx
+      have : decide (h < x) = false := by simp; omega
+      simp [this]
+    · rw [List.filter_cons]
+      have hh : coveredBy (T ++ [(h, w.ssp, r.cp)]) h = false := by
+        rw [coveredBy_append, hnew]
+        simp only [Nat.lt_irrefl, decide_false, Bool.false_and, Bool.or_false]
+        simp only [coveredBy, List.any_eq_false, Bool.and_eq_true, decide_eq_true_eq, not_and]
+        intro t ht _
+        have := hfree t ht; omega
+      simp only [hh, Bool.not_false, if_true, List.map_cons, List.map_nil, List.cons.injEq, true_and]
+      symm
+      rw [List.filter_eq_nil_iff]
+      intro p hp
+      have := hdropped p hp
+      rw [coveredBy_append, hnew]
+      simp [this.1, this.2]
+  · intro t ht
+    rcases List.mem_append.mp ht with h | h
+    · have := pi.ends t h; omega
+    · simp at h; subst h; simp
+  · intro t ht
+    rcases List.mem_append.mp ht with h | h
+    · exact List.mem_append_left _ (pi.fromDone t h)
+    · simp at h; subst h; simp
+  · intro t ht p hp
+    have hp' := hrem p hp
+    rcases List.mem_append.mp ht with h' | h'
+    · have e1 := pi.ends t h'; omega
+    · simp at h'; subst h'; exact hp'
+
+end C14
+
+namespace C14
+
+theorem hyphLoop_inv2 {eng : Engine} {font : Nat} {s : List Nat} {rbo : Option Nat} {Mn : List Node}
+    (he : EngineOK eng) (hs : C05.originals Mn = s) {pos0 : List Nat} (hsorted : pos0.Pairwise (· < ·)) :
+    ∀ (fuel : Nat) (w w' : W) (C : List Node) (T : List (Nat × Nat × Nat)) (done : List Nat),
+      Base font Mn w C → SplitOK s w → PosInv pos0 w.out w.cp w.pos T done →
+      (∀ t ∈ T, ∀ p ∈ w.pos, t.2.2 ≤ p) →
+      hyphLoop eng font s rbo fuel w = some w' →
+      ∃ C' T' done', Base font Mn w' C' ∧ w'.main.sep = true ∧
+        PosInv pos0 w'.out w'.cp w'.pos T' done' ∧ ∀ p ∈ w'.pos, w'.cp < p := by
+  intro fuel
+  induction fuel with
+  | zero => intro w w' C T done _ _ _ _ h; simp [hyphLoop] at h
+  | succ fuel ih =>
+    intro w w' C T done b sp pi hfree h
+    simp only [hyphLoop] at h
+    split at h
+    · cases h
+    · rename_i hh pos' hpos
+      split at h
+      · cases h
+      · rename_i hguard
+        split at h
+        · cases h
+        · split at h
+          · cases h
+          · rename_i r hsync
+            obtain ⟨postC, mainC, d⟩ := sync_spec _ _ _ hsync
+            have h1 : w.ssp ≤ hh := by omega
+            have h2 : hh ≤ s.length := by omega
+            have step := fun (e s' : Nat) (p : List Nat) =>
+              disc_step (rbo := rbo) he hs b sp h1 d rfl rfl rfl rfl rfl rfl e s' p
+            have hfree0 : ∀ t ∈ T, t.2.2 ≤ hh := fun t ht => hfree t ht hh (by rw [hpos]; simp)
+            obtain ⟨pi', hrem, hfree'⟩ :=
+              disc_step_pos he hs hsorted b sp pi hpos h1 h2 hfree0 d rfl rfl rfl rfl rfl
+            split at h
+            · rename_i hpos2
+              simp only [Option.some.injEq] at h
+              subst h
+              refine ⟨C ++ mainC, T ++ [(hh, w.ssp, r.cp)], done ++ hh :: pos'.takeWhile (fun p => decide (p < r.cp)), step _ _ _, d.mainSep, ?_, by simp⟩
+              simp only
+              rw [hpos2] at pi'
+              exact pi'
+            · rename_i h2' t hpos2
+              have hsuf : (h2' :: t).Pairwise (· < ·) := by
+                have := pi'.split
+                rw [hpos2] at this
+                have hs' := hsorted
+                rw [← this] at hs'
+                exact (List.pairwise_append.mp hs').2.1
+              split at h
+              · rename_i hgt
+                simp only [Option.some.injEq] at h
+                subst h
+                refine ⟨C ++ mainC, T ++ [(hh, w.ssp, r.cp)], done ++ hh :: pos'.takeWhile (fun p => decide (p < r.cp)), step _ _ _, d.mainSep, ?_, ?_⟩
+                · exact pi'
+                · simp only
+                  intro p hp
+                  rw [hpos2] at hp
+                  rcases List.mem_cons.mp hp with rfl | hpt
+                  · exact hgt
+                  · have := (List.pairwise_cons.mp hsuf).1 p hpt; omega
+              · have b0 := step w.esp w.ssp (skipPast r.cp pos')
+                have b' := step 0 r.cp (skipPast r.cp pos')
+                exact ih _ _ _ _ _ b' (splitOK_reset b0 hs) pi' hfree' h
+
+/-- The loop over the main run with the ghost state for the positions. -/
+theorem wordLoop_inv2 {eng : Engine} {font : Nat} {s : List Nat} {rbo : Option Nat} {Mn : List Node}
+    (he : EngineOK eng) (hs : C05.originals Mn = s) {pos0 : List Nat} (hsorted : pos0.Pairwise (· < ·)) :
+    ∀ (fuel : Nat) (w w' : W) (C : List Node) (T : List (Nat × Nat × Nat)) (done : List Nat),
+      Base font Mn w C → (w.main.sep = true ∨ SplitOK s w) → PosInv pos0 w.out w.cp w.pos T done →
+      (∀ p ∈ w.pos, w.cp < p) →
+      wordLoop eng font s rbo fuel w = some w' →
+      ∃ C' T' done', Base font Mn w' C' ∧ w'.main.rest = [] ∧
+        PosInv pos0 w'.out w'.cp w'.pos T' done' ∧ ∀ p ∈ w'.pos, w'.cp < p := by
+  intro fuel
+  induction fuel with
+  | zero => intro w w' C T done _ _ _ _ h; simp [wordLoop] at h
+  | succ fuel ih =>
+    intro w0 w' C T done b0 hsp pi0 hgt0 h
+    simp only [wordLoop] at h
+    generalize hw : (if w0.main.sep = true then { w0 with esp := 0, ssp := w0.cp } else w0) = w at h
+    have hmain : w.main = w0.main := by rw [← hw]; split <;> rfl
+    have hout : w.out = w0.out := by rw [← hw]; split <;> rfl
+    have hcp : w.cp = w0.cp := by rw [← hw]; split <;> rfl
+    have hpos : w.pos = w0.pos := by rw [← hw]; split <;> rfl
+    have b : Base font Mn w C := by
+      refine ⟨?_, ?_, ?_, ?_, ?_⟩
+      · rw [hmain]; exact b0.rest
+      · rw [hcp]; exact b0.cp
+      · rw [hout]; exact b0.erased
+      · rw [hout]; exact b0.amd
+      · rw [hout]; exact b0.p2
+    have sp : SplitOK s w := by
+      rw [← hw]
+      split
+      · exact splitOK_reset b0 hs
+      · rename_i hns
+        rcases hsp with h | h
+        · exact absurd h hns
+        · exact h
+    have pi : PosInv pos0 w.out w.cp w.pos T done := by rw [hout, hcp, hpos]; exact pi0
+    have hgt : ∀ p ∈ w.pos, w.cp < p := by rw [hpos, hcp]; exact hgt0
+    split at h
+    · rename_i hrest
+      simp only [Option.some.injEq] at h
+      subst h
+      exact ⟨C, T, done, b, hrest, pi, hgt⟩
+    · rename_i n f t hrest
+      obtain ⟨b1, sp1⟩ := push_step b sp hrest
+      -- the position invariant after the push (only `out` and `cp` change)
+      have pi1 : PosInv pos0 (w.out ++ [(toItem font n, false)]) (w.cp + numChars n) w.pos T done := by
+        have hun : Unmarked [(toItem font n, false)] := by intro x hx; simp at hx; subst hx; rfl
+        refine ⟨?_, pi.split, pi.taken, ?_, pi.fromDone⟩
+        · rw [discPositions_append _ _ b.p2, discPositions_unmarked _ hun, pi.disc]; simp
+        · intro t ht; have := pi.ends t ht; omega
+      split at h
+      · -- a kern: `chars_pushed` is unchanged
+        rename_i hlc
+        have hk : numChars n = 0 := by cases n <;> simp_all [lastChar, numChars]
+        exact ih _ _ _ _ _ b1 (Or.inr sp1) pi1 (by intro p hp; have := hgt p hp; simp only; omega) h
+      · rename_i lc hlc
+        split at h
+        · rename_i hnil
+          exact ih _ _ _ _ _ b1 (Or.inr sp1) pi1 (by intro p hp; rw [show w.pos = [] from hnil] at hp; cases hp) h
+        · rename_i hh tl hposw
+          replace hposw : w.pos = hh :: tl := hposw
+          have hsuf : (hh :: tl).Pairwise (· < ·) := by
+            have := pi.split
+            rw [hposw] at this
+            have hs' := hsorted
+            rw [← this] at hs'
+            exact (List.pairwise_append.mp hs').2.1
+          split at h
+          · rename_i hbig
+            refine ih _ _ _ _ _ b1 (Or.inr sp1) pi1 ?_ h
+            intro p hp
+            simp only at hp hbig ⊢
+            rw [hposw] at hp
+            rcases List.mem_cons.mp hp with rfl | hpt
+            · exact hbig
+            · have := (List.pairwise_cons.mp hsuf).1 p hpt; omega
+          · split at h
+            · cases h
+            · rename_i w3 hloop
+              have hfree : ∀ t ∈ T, ∀ p ∈ w.pos, t.2.2 ≤ p := by
+                intro t ht p hp
+                have e1 := pi.ends t ht
+                have e2 := hgt p hp
+                omega
+              have key : ∀ w2 : W, w2.out = w.out ++ [(toItem font n, false)] → w2.cp = w.cp + numChars n →
+                  w2.pos = w.pos → Base font Mn w2 (C ++ [n]) → SplitOK s w2 →
+                  hyphLoop eng font s rbo (w2.pos.length + 1) w2 = some w3 →
+                  ∃ C' T' done', Base font Mn w' C' ∧ w'.main.rest = [] ∧
+                    PosInv pos0 w'.out w'.cp w'.pos T' done' ∧ ∀ p ∈ w'.pos, w'.cp < p := by
+                intro w2 e1 e2 e3 b2 sp2 hl
+                obtain ⟨C3, T3, done3, b3, hsep, pi3, hgt3⟩ :=
+                  hyphLoop_inv2 he hs hsorted _ _ _ _ _ _ b2 sp2 (by rw [e1, e2, e3]; exact pi1)
+                    (by rw [e3]; exact hfree) hl
+                exact ih _ _ _ _ _ b3 (Or.inl hsep) pi3 hgt3 h
+              generalize hw2 : (if (hh == (w.cp + numChars n) && f && !eng.hasRepl (some lc) (some hyphenChar)) = true then _ else _ : W) = w2 at hloop
+              have hb2 : w2.out = w.out ++ [(toItem font n, false)] ∧ w2.cp = w.cp + numChars n ∧
+                  w2.pos = w.pos ∧ Base font Mn w2 (C ++ [n]) ∧ SplitOK s w2 := by
+                rw [← hw2]
+                split
+                · exact ⟨rfl, rfl, rfl, ⟨b1.rest, b1.cp, b1.erased, b1.amd, b1.p2⟩, splitOK_reset b1 hs⟩
+                · exact ⟨rfl, rfl, rfl, b1, sp1⟩
+              exact key w2 hb2.1 hb2.2.1 hb2.2.2.1 hb2.2.2.2.1 hb2.2.2.2.2 hloop
+
+end C14
+
+namespace C14
+
+theorem rebuildWord_positions {eng : Engine} (he : EngineOK eng) (font : Nat) (s : List Nat) (rbo : Option Nat)
+    (dlb : Bool) (pos : List Nat) (out : List (Item × Bool))
+    (hsorted : pos.Pairwise (· < ·)) (hrange : ∀ p ∈ pos, 1 ≤ p ∧ p ≤ s.length)
+    (h : rebuildWord eng font s rbo dlb pos = some out) :
+    (discPositions (mk out) (it out) 0).map (·.1)
+      = pos.filter (fun p => !coveredBy (discPositions (mk out) (it out) 0) p) := by
+  simp only [rebuildWord, Option.map_eq_some_iff] at h
+  obtain ⟨w', hw, rfl⟩ := h
+  have b0 : Base font ((eng.run dlb rbo s).map (·.1))
+      { out := [], cp := 0, esp := 0, ssp := 0, pos := pos, main := ⟨eng.run dlb rbo s, true⟩ } [] :=
+    ⟨by simp, by simp [countChars], by simp [erase], by simp [allMarkedDisc], by simp [P2]⟩
+  have pi0 : PosInv pos [] 0 pos [] [] :=
+    ⟨by simp [discPositions], by simp, by simp, by simp, by simp⟩
+  obtain ⟨C', T', done', b', hr, pi', hgt'⟩ :=
+    wordLoop_inv2 (rbo := rbo) he (he.spell dlb rbo s) hsorted _ _ _ _ _ _ b0 (Or.inl rfl) pi0
+      (fun p hp => (hrange p hp).1) hw
+  have hC : C' = (eng.run dlb rbo s).map (·.1) := by
+    have := b'.rest; rw [hr] at this; simpa using this
+  have hcp : w'.cp = s.length := by
+    rw [b'.cp, hC, countChars_eq, he.spell]
+  have hnil : w'.pos = [] := by
+    cases hp : w'.pos with
+    | nil => rfl
+    | cons x t =>
+      exfalso
+      have h1 := hgt' x (by rw [hp]; simp)
+      have h2 : x ∈ pos := by rw [← pi'.split, hp]; simp
+      have := (hrange x h2).2
+      omega
+  have hdone : done' = pos := by have := pi'.split; rw [hnil] at this; simpa using this
+  rw [pi'.disc, pi'.taken, hdone]
+
+end C14
